@@ -1,5 +1,6 @@
 """C08 — prepared-statement caching is invisible to clients."""
 from mirlib import *
+from common import parse_cache_key_gap
 
 H = "pgcat::client::Client::handle::{closure#0}"
 MSG = ("Parse", "Bind", "Describe", "Close")
@@ -206,6 +207,8 @@ def run(ctx):
                      "the key is a concatenation without separators (template %s): (\"SELECT $1\", types=[0]) and (\"SELECT $11\", types=[]) both hash \"SELECT $110\", so two different statements share one PGCAT_n" % (tmpl,), GET_HASH)
         else:
             r2.fail("unambiguous", "cannot recognise how the key is built (fields hashed: %s)" % sorted(per_field))
+        gap, encf, hashf = parse_cache_key_gap(F)
+        r2.check(gap is not None and not gap, "covers-every-encoded-field", "every client-supplied field the Parse encoder writes (%s) is part of the key" % sorted(encf), "Parse.%s is sent to the server from the cached message but is not part of the key: two different Parse messages share one cache entry" % gap)
     # the cache is keyed by that hash and returns the cached rewritten Parse
     goi = ctx.body("pgcat::pool::PreparedStatementCache::get_or_insert", r2)
     if goi:
@@ -362,6 +365,20 @@ def run(ctx):
             else:
                 ok, why = False, ""
             r5.check(ok, "record-remover:" + fn, "%s removes from the record (%s): %s" % (fn, sorted(ops), why), "%s removes names from Server.%s (%s) without closing them on the server" % (fn, sorted(pending), sorted(ops)))
+    # every statement pgcat itself sends that drops all prepared statements of the session empties the cache with it (round 5)
+    cc5 = ctx.body("pgcat::server::Server::checkin_cleanup::{closure#0}", r5)
+    if cc5:
+        cc5sw = switches(cc5)
+        qs = [k.block for k in cc5.calls("pgcat::server::Server::query")]
+        clears = [k.block for k in cc5.calls("re:LruCache.*::clear$")]
+        dea5 = [k for k in cc5.calls() if any(re.search(r"DEALLOCATE\s+ALL|DISCARD\s+ALL", x.upper()) for x in arg_strs(cc5, k))]
+        if not dea5 or not qs:
+            r5.missing("DEALLOCATE ALL / DISCARD ALL text or Server::query in checkin_cleanup")
+        for k in dea5:
+            txt = [x for x in arg_strs(cc5, k) if re.search(r"DEALLOCATE\s+ALL|DISCARD\s+ALL", x.upper())][0]
+            noneE, _, _ = discr_edges(cc5, r"core::option::Option<(&mut )?lru::LruCache", "None", switches_cache=cc5sw)  # no cache configured: nothing to empty
+            w = cc5.uncrossed_path([k.block], qs, blocks=clears, edges=noneE)
+            r5.check(w is None, "drops-all=>cache-cleared:" + txt.strip(" ;"), "`%s` is sent only after the server-side statement cache was emptied" % txt.strip(), "checkin_cleanup can send `%s` (every PGCAT_n statement of the connection is gone) and keep the statement cache: has_prepared_statement() keeps answering true, no Parse is sent again and every later Bind of a cached statement fails with `prepared statement does not exist`" % txt.strip(), k.where(), w and cc5.describe_path(w))
     rp = ctx.body(RPS, r5)
     if rp:
         r5.check(bool(rp.calls("re:VecDeque::push_back$")), "registering-queue", "the statement being registered is queued for error handling", "register_prepared_statement no longer records the statement being registered")
